@@ -10,6 +10,7 @@
   stays accepted as time passes).
 -/
 import Lumina.Proofs.StoreHist
+import Lumina.Proofs.ComposeStoreVerify
 import Lumina.Gen.C21
 
 open Lumina.Model.Store Lumina.Spec.C19
@@ -80,5 +81,226 @@ example : (runOps (MemStore.step exV) MemStore.new exOps).2 =
 example : (MemStore.step exV (runOps (MemStore.step exV) MemStore.new exOps).1 (.getByHeight 2)).2 = .ok (.hdr (hd 2 2 102)) ∧
     (MemStore.step exV (runOps (MemStore.step exV) MemStore.new exOps).1 (.getByHeight 3)).2 = .ok (.hdr (hd 3 3 103)) := by
   decide
+
+
+/-! ## C21 × C02 (strengthening S7): the oracle instantiated with the real check
+
+  Everything above holds for an ARBITRARY oracle `v`.  Below the oracle is the C02 model of
+  `ExtendedHeader::verify` (`Lumina.Model.HeaderVerify.verify`, characterised by
+  `Lumina.Props.C02.verify_ok_iff`), read through a content projection
+  `C : Content` (`C.c : Store.Hdr → HeaderVerify.Hdr`, heights agree), and the conclusion is the
+  CONCRETE linkage of C02 between any two consecutive stored headers: height + 1, same chain id,
+  strictly later time, `validators_hash = trusted.next_validators_hash`,
+  `last_block_id.hash = trusted.hash` — "fork-free hash-linked segments".
+
+  ROLE OF THE CLOCK.  `verify` also demands `untrusted.time < now + 10 s`.  That conjunct is
+  checked when a pair is verified, i.e. AT INSERTION TIME ONLY; it is not an invariant of the
+  stored data with respect to later clock readings (`stored_pair_can_fail_a_later_clock_check`).
+  Therefore the histories below give EVERY OPERATION ITS OWN ORACLE (`runOpsV`); an oracle is
+  admissible (`ClockSound`) when each `true` it returns is an `Ok` of the C02 model at SOME clock
+  reading — nothing is assumed about how the clock moves between or inside store calls.  The five
+  clock-free conditions are invariant (`*_consecutive_headers_linked`); the clock-dependent one
+  survives only in the weak form "below the LARGEST clock reading used so far + 10 s"
+  (`*_consecutive_time_below_latest_clock`).  With one oracle for the whole history `runOpsV` is the
+  `runOps` of the theorems above (`clocked_run_generalises_runOps`). -/
+
+open Lumina.Proofs.ComposeStoreVerify
+
+/-- the store models' `verify_adjacent` over the instantiated oracle IS the C02 model's
+    `verify_adjacent` on the contents -/
+theorem verifyAdjacent_instantiated (C : Content) (sig : Hdr → Hdr → HeaderVerify.Oracle) (now : Int)
+    (x y : Hdr) :
+    verifyAdjacent (verifyAt C sig now) x y = true ↔
+      Lumina.Props.C02.verifyAdjacentM (sig x y) now (C.c x) (C.c y) = .ok := by
+  rw [Lumina.Props.C02.verifyAdjacent_ok_iff, C.height_eq, C.height_eq]
+  unfold verifyAdjacent verifyAt
+  by_cases h : x.height + 1 = y.height <;> simp [h]
+
+/-- DIRECT INSTANTIATION of `mem_adjacent_verify` (one clock reading for the whole history):
+    consecutive stored headers satisfy the concrete linkage conditions of C02 -/
+theorem mem_adjacent_linked_fixed_clock (C : Content) (sig : Hdr → Hdr → HeaderVerify.Oracle) (now : Int)
+    (ops : List Op) (hw : AllWf ops) (h : Nat) (x y : Hdr) :
+    let m := (runOps (MemStore.step (verifyAt C sig now)) MemStore.new ops).1
+    m.getByHeight h = .ok x → m.getByHeight (h + 1) = .ok y →
+      (C.c y).height = (C.c x).height + 1 ∧ (C.c y).chainId = (C.c x).chainId ∧
+      (C.c x).time < (C.c y).time ∧ (C.c y).validatorsHash = (C.c x).nextValidatorsHash ∧
+      (C.c y).lastHeaderHash = (C.c x).hash := by
+  intro m hx hy
+  have hv := mem_adjacent_verify (verifyAt C sig now) ops hw h x y hx hy
+  have hadj : x.height + 1 = y.height := by
+    unfold verifyAdjacent at hv
+    split at hv
+    · cases hv
+    · rename_i hne; simpa using hne
+  have hv' : verifyAt C sig now x y = true := by
+    unfold verifyAdjacent at hv
+    split at hv
+    · cases hv
+    · exact hv
+  exact (verifyAt_adjacent hv' hadj).1
+
+/-- the same for the redb store -/
+theorem redb_adjacent_linked_fixed_clock (C : Content) (sig : Hdr → Hdr → HeaderVerify.Oracle) (now : Int)
+    (ops : List Op) (hw : AllWf ops) (hvr : ValidRun (verifyAt C sig now) init ops) (h : Nat) (x y : Hdr) :
+    let t := (runOps (RedbStore.step (verifyAt C sig now)) RedbStore.new ops).1
+    RedbStore.getByHeight t h = .ok x → RedbStore.getByHeight t (h + 1) = .ok y →
+      (C.c y).height = (C.c x).height + 1 ∧ (C.c y).chainId = (C.c x).chainId ∧
+      (C.c x).time < (C.c y).time ∧ (C.c y).validatorsHash = (C.c x).nextValidatorsHash ∧
+      (C.c y).lastHeaderHash = (C.c x).hash := by
+  intro t hx hy
+  have hv := redb_adjacent_verify (verifyAt C sig now) ops hw hvr h x y hx hy
+  have hadj : x.height + 1 = y.height := by
+    unfold verifyAdjacent at hv
+    split at hv
+    · cases hv
+    · rename_i hne; simpa using hne
+  have hv' : verifyAt C sig now x y = true := by
+    unfold verifyAdjacent at hv
+    split at hv
+    · cases hv
+    · exact hv
+  exact (verifyAt_adjacent hv' hadj).1
+
+/-- a history whose operations all use the same oracle is a history of the theorems above -/
+theorem clocked_run_generalises_runOps {σ : Type} (step : (Hdr → Hdr → Bool) → σ → Op → σ × Res)
+    (v : Hdr → Hdr → Bool) (ops : List Op) (s : σ) :
+    runOpsV step s (ops.map (fun op => (v, op))) = runOps (step v) s ops :=
+  runOpsV_const step v ops s
+
+/-- **IN-MEMORY STORE, fork-free hash-linked segments, any clock behaviour.**  After ANY history in
+    which every operation ran with its own verification oracle, each sound for the real check at
+    some clock reading, the headers stored at heights `h` and `h + 1` satisfy the concrete linkage
+    conditions of C02. -/
+theorem mem_consecutive_headers_linked (C : Content) (sig : Hdr → Hdr → HeaderVerify.Oracle)
+    (ops : List VOp) (hw : AllWfV ops) (hs : ∀ p ∈ ops, ClockSound C sig p.1) (h : Nat) (x y : Hdr) :
+    let m := (runOpsV MemStore.step MemStore.new ops).1
+    m.getByHeight h = .ok x → m.getByHeight (h + 1) = .ok y →
+      (C.c y).height = (C.c x).height + 1 ∧ (C.c y).chainId = (C.c x).chainId ∧
+      (C.c x).time < (C.c y).time ∧ (C.c y).validatorsHash = (C.c x).nextValidatorsHash ∧
+      (C.c y).lastHeaderHash = (C.c x).hash := by
+  intro m hx hy
+  obtain ⟨hi, hv⟩ := absV_run_inv (L := linkB C) ops init hw
+    (fun p hp => soundFor_link (hs p hp)) absInv_init (absVer_init _)
+  obtain ⟨_, r⟩ := memV_run_sim ops _ _ hw rm_init absInv_init
+  exact of_decide_eq_true (mem_pair r hi hv h x y hx hy)
+
+/-- **REDB STORE, fork-free hash-linked segments, any clock behaviour** (every header handed to
+    `insert` is validated: the documented precondition of the store, cf. `redb_adjacent_verify`). -/
+theorem redb_consecutive_headers_linked (C : Content) (sig : Hdr → Hdr → HeaderVerify.Oracle)
+    (ops : List VOp) (hw : AllWfV ops) (hval : AllValidatedV ops)
+    (hs : ∀ p ∈ ops, ClockSound C sig p.1) (h : Nat) (x y : Hdr) :
+    let t := (runOpsV RedbStore.step RedbStore.new ops).1
+    RedbStore.getByHeight t h = .ok x → RedbStore.getByHeight t (h + 1) = .ok y →
+      (C.c y).height = (C.c x).height + 1 ∧ (C.c y).chainId = (C.c x).chainId ∧
+      (C.c x).time < (C.c y).time ∧ (C.c y).validatorsHash = (C.c x).nextValidatorsHash ∧
+      (C.c y).lastHeaderHash = (C.c x).hash := by
+  intro t hx hy
+  obtain ⟨hi, hv⟩ := absV_run_inv (L := linkB C) ops init hw
+    (fun p hp => soundFor_link (hs p hp)) absInv_init (absVer_init _)
+  obtain ⟨_, r⟩ := redbV_run_sim ops _ _ hw hval rr_init absInv_init storedValid_init
+  exact of_decide_eq_true (redb_pair r hi hv h x y hx hy)
+
+/-- **What is left of the clock condition.**  If every clock reading used by the history is `≤ N`
+    (e.g. `N` = the latest reading of a monotone clock), the upper header of every consecutive
+    stored pair has `time < N + 10 s`.  (A header stored WITHOUT a stored neighbour was never
+    compared with the clock: `insert` only verifies pairs.) -/
+theorem mem_consecutive_time_below_latest_clock (C : Content) (sig : Hdr → Hdr → HeaderVerify.Oracle)
+    (N : Int) (ops : List VOp) (hw : AllWfV ops) (hs : ∀ p ∈ ops, ClockSoundBelow C sig N p.1)
+    (h : Nat) (x y : Hdr) :
+    let m := (runOpsV MemStore.step MemStore.new ops).1
+    m.getByHeight h = .ok x → m.getByHeight (h + 1) = .ok y → (C.c y).time < N + 10000000000 := by
+  intro m hx hy
+  obtain ⟨hi, hv⟩ := absV_run_inv (L := linkBelowB C N) ops init hw
+    (fun p hp => soundFor_linkBelow (hs p hp)) absInv_init (absVer_init _)
+  obtain ⟨_, r⟩ := memV_run_sim ops _ _ hw rm_init absInv_init
+  exact (of_decide_eq_true (mem_pair r hi hv h x y hx hy)).2
+
+theorem redb_consecutive_time_below_latest_clock (C : Content) (sig : Hdr → Hdr → HeaderVerify.Oracle)
+    (N : Int) (ops : List VOp) (hw : AllWfV ops) (hval : AllValidatedV ops)
+    (hs : ∀ p ∈ ops, ClockSoundBelow C sig N p.1) (h : Nat) (x y : Hdr) :
+    let t := (runOpsV RedbStore.step RedbStore.new ops).1
+    RedbStore.getByHeight t h = .ok x → RedbStore.getByHeight t (h + 1) = .ok y →
+      (C.c y).time < N + 10000000000 := by
+  intro t hx hy
+  obtain ⟨hi, hv⟩ := absV_run_inv (L := linkBelowB C N) ops init hw
+    (fun p hp => soundFor_linkBelow (hs p hp)) absInv_init (absVer_init _)
+  obtain ⟨_, r⟩ := redbV_run_sim ops _ _ hw hval rr_init absInv_init storedValid_init
+  exact (of_decide_eq_true (redb_pair r hi hv h x y hx hy)).2
+
+/-- **Fork-freeness, spelled out** (in-memory store).  If the abstract hash is the hash of the
+    content (`HashFaithful`), then the parent a stored header NAMES (`last_block_id.hash`), if it
+    is stored at all — at whatever height —, is the header stored directly below it: the store
+    holds no second header claiming to be that parent, and no header whose named parent sits
+    elsewhere. -/
+theorem mem_named_parent_is_the_header_below (C : Content) (hf : C.HashFaithful)
+    (sig : Hdr → Hdr → HeaderVerify.Oracle) (ops : List VOp) (hw : AllWfV ops)
+    (hs : ∀ p ∈ ops, ClockSound C sig p.1) (h k : Nat) (x y z : Hdr) :
+    let m := (runOpsV MemStore.step MemStore.new ops).1
+    m.getByHeight h = .ok x → m.getByHeight (h + 1) = .ok y → m.getByHeight k = .ok z →
+      (C.c z).hash = (C.c y).lastHeaderHash → z = x ∧ k = h := by
+  intro m hx hy hz hq
+  have hl := mem_consecutive_headers_linked C sig ops hw hs h x y hx hy
+  obtain ⟨hi, _⟩ := absV_run_inv (L := linkB C) ops init hw
+    (fun p hp => soundFor_link (hs p hp)) absInv_init (absVer_init _)
+  obtain ⟨_, r⟩ := memV_run_sim ops _ _ hw rm_init absInv_init
+  obtain ⟨hxh, hxq, _⟩ := mem_hashIndex r hi h x hx
+  obtain ⟨hzh, hzq, _⟩ := mem_hashIndex r hi k z hz
+  have e : z.hash = x.hash := hf z x (by rw [hq, hl.2.2.2.2])
+  rw [e, hxq] at hzq
+  injection hzq with hzq
+  subst hzq
+  exact ⟨rfl, by omega⟩
+
+/-! ### non-vacuity of the instantiation: a concrete content map, two clock readings, a fork -/
+
+/-- content of the example headers: time `100 · height`, one validator-set hash throughout,
+    `hash() = [hash]`, `last_header_hash() = [id]` (the `id` of an example header is the hash number
+    of the parent it names) -/
+def exContent : Content where
+  c := fun x =>
+    { height := x.height, chainId := [99], time := 100 * (x.height : Int),
+      validatorsHash := some [1], nextValidatorsHash := some [1],
+      lastHeaderHash := some [UInt8.ofNat x.id], hash := some [UInt8.ofNat x.hash],
+      valset := { vals := [], total := 0 }, sigs := [] }
+  height_eq := fun _ => rfl
+
+def exSig : Hdr → Hdr → HeaderVerify.Oracle := fun _ _ _ _ => false
+
+/-- heights 1..3 hash-linked (101 ← 102 ← 103); `hd 77 2 120` is a fork of height 2 naming parent 77.
+    Clock readings: 1000 ns for the first three operations, then the clock jumps BACK to −10¹² ns. -/
+def exVOps : List VOp :=
+  [ (verifyAt exContent exSig 1000, .insert [hd 100 1 101, hd 101 2 102]),
+    (verifyAt exContent exSig 1000, .insert [hd 102 3 103]),
+    (verifyAt exContent exSig 1000, .remove 2),
+    (verifyAt exContent exSig (-1000000000000), .insert [hd 77 2 120]),
+    (verifyAt exContent exSig 2000, .insert [hd 101 2 102]) ]
+
+example : AllWfV exVOps := by unfold AllWfV; decide
+example : ∀ p ∈ exVOps, ClockSound exContent exSig p.1 := by
+  intro p hp
+  simp only [exVOps, List.mem_cons, List.not_mem_nil, or_false] at hp
+  rcases hp with rfl | rfl | rfl | rfl | rfl <;> exact verifyAt_clockSound _ _ _
+example : (runOpsV MemStore.step MemStore.new exVOps).2 =
+    [.ok .unit, .ok .unit, .ok .unit, .err .neighborsVerificationFailed, .ok .unit] := by decide
+example :
+    (MemStore.step exV (runOpsV MemStore.step MemStore.new exVOps).1 (.getByHeight 2)).2 = .ok (.hdr (hd 101 2 102)) ∧
+    (MemStore.step exV (runOpsV MemStore.step MemStore.new exVOps).1 (.getByHeight 3)).2 = .ok (.hdr (hd 102 3 103)) := by
+  decide
+
+/-- a history whose last operation runs while the clock reads −10¹² ns -/
+def exVOpsBack : List VOp :=
+  exVOps.take 2 ++ [(verifyAt exContent exSig (-1000000000000), .mark 1)]
+
+/-- **The `now` bound is an insertion-time check, not an invariant**: the pair stored at heights
+    1, 2 by the first operation (clock 1000 ns) is still stored after an operation whose clock
+    reads −10¹² ns — a reading at which `verify` REJECTS that very pair (`time from the future`),
+    while the clock-free linkage of course still holds. -/
+theorem stored_pair_can_fail_a_later_clock_check :
+    (MemStore.step exV (runOpsV MemStore.step MemStore.new exVOpsBack).1 (.getByHeight 1)).2
+      = .ok (.hdr (hd 100 1 101)) ∧
+    (MemStore.step exV (runOpsV MemStore.step MemStore.new exVOpsBack).1 (.getByHeight 2)).2
+      = .ok (.hdr (hd 101 2 102)) ∧
+    Lumina.Props.C02.verifyM (exSig (hd 100 1 101) (hd 101 2 102)) (-1000000000000)
+      (exContent.c (hd 100 1 101)) (exContent.c (hd 101 2 102)) = .err .timeFuture := by decide
 
 end Lumina.Props.C21
